@@ -102,7 +102,18 @@ def execute(trace, ctx):
     old_sf = Alignment.STEPS_FACTOR
     with seam, rseam:
         try:
-            if trace["np_seed"] % 3 == 0:
+            if trace["np_seed"] % 5 == 1:
+                # the system is populated one topology OBJECT at a time, in another order than the file's
+                from gaddlemaps.components import System, MoleculeTop
+                import random as _r
+                syst = System(paths["system"])
+                order = list(range(len(paths["species"])))
+                _r.Random(trace["np_seed"]).shuffle(order)
+                for k in order:
+                    syst.add_molecule_top(MoleculeTop(paths["species"][k]["top_start"]))
+                manager = Manager(syst)
+                ctx.probe("system_populated_by_add_molecule_top")
+            elif trace["np_seed"] % 3 == 0:
                 from gaddlemaps.components import System
                 manager = Manager(System(paths["system"], *[p["top_start"] for p in paths["species"]]))
             else:
